@@ -1,7 +1,7 @@
 """C06 Refactor / re-solve histories are as good as a fresh factorization  —  R3 phases (drivers, sp_preorder), reuse-branch twin, R10 may-write, pivot fallback, R9."""
 from ..facts import Program
 from ..run import Check, AnalysisBroken
-from ..rules import pivot, factor_tail, r9_sibling, preorder, r10
+from ..rules import pivot, factor_tail, r9_sibling, preorder, r10, misc, r6_wspace
 from ..rules.effects import PathEffects
 from . import _drv, _gssvx, _expert
 
@@ -17,7 +17,7 @@ def run(tier):
         'SamePattern_SameRowPerm tail of ?gstrf must refresh every field of L and U that the creators bind to a count or a growable array '
         '(binding read from ?Create_SuperNode_Matrix / ?Create_CompCol_Matrix). R10: the solve-side routines (?gstrs ?gsrfs ?gscon sp_?trsv '
         '?PivotGrowth ?QuerySpace ?langs) have a may-write set that contains no path under L or U - "re-solving never alters the factors" '
-        '(sound under the no-alias contract). Pivot fallback of ?pivotL (reuse abandoned -> threshold pivoting). R9 siblings. Not decided: '
+        '(sound under the no-alias contract). Pivot fallback of ?pivotL (reuse abandoned -> threshold pivoting). Reuse of storage: every local mirror of a GlobalLU_t field is loaded from / stored to the field of its own name (603 sites; ?LUMemInit restores nzlmax, nzumax, nzlumax from the previous factorization this way), and the workspace stack bookkeeping (R6: used = top1 + size - top2, ?LUWorkFree returns exactly what ?LUWorkInit took) is preserved, so that a re-factorization starts from a consistent stack. R9 siblings. Not decided: '
         'accuracy of each step; that abandoned pivots still give a valid factorization.')
     cfgs = ['tested'] if tier == 'quick' else ['tested', 'cblas', 'idx64']
     chk.configs = cfgs
@@ -46,6 +46,9 @@ def run(tier):
             r10.maywrite(chk, 'C06.D3', prog, eff, p + 'PivotGrowth', {}, cfgname)
             r10.maywrite(chk, 'C06.D3', prog, eff, p + 'QuerySpace', {'mem_usage': ['->']}, cfgname)
             r10.maywrite(chk, 'C06.D3', prog, eff, p + 'langs', {}, cfgname)
+        misc.glu_mirror_rule(chk, 'C06.mirror', prog, cfgname, floor=500)
+        if r6_wspace.run(chk, 'R6', prog, cfgname) < 32:
+            raise AnalysisBroken('C06: workspace allocator routines not found')
         if n < 4 * 200 or nl < 5:
             raise AnalysisBroken('C06: %d driver leaves / %d sp_preorder leaves, floors 800 / 5' % (n, nl))
         if cfgname == 'tested':
